@@ -50,10 +50,11 @@ def EnvOk (S : Store) (G : Env) (st : St F) : Prop :=
   ∀ n t v, G n = some t → getVar st n = some v → VT S v t
 
 /-- the outcomes the language documents: a run-time panic of Evy, `exit`, an external stop, and the
-step budget of the model — not an internal error, not a crash of the host -/
+step budget of the model, a failed test — not an internal error, not a crash of the host -/
 def Doc : Outcome → Prop
   | .panic _ | .exit _ | .stopped | .timeout => True
-  | .internal _ | .goPanic _ => False
+  | .internal w => w = "ErrTest"     -- a failed `test` (fail-fast): the only documented use of this class
+  | .goPanic _ => False
 
 def isArith (op : Op) : Bool := op = .plus || op = .minus || op = .asterisk || op = .slash || op = .percent
 def isCmp (op : Op) : Bool := op = .lt || op = .gt || op = .lteq || op = .gteq
@@ -269,6 +270,9 @@ inductive STyped (Φ : FEnv) (Gg : Env) (ρ : Option Ty) : List SEnv → Stmt F 
       sig.params.length ≤ args.length → (sig.rest = none → args.length = sig.params.length) →
       args.length = tys.length → (∀ (i : Nat) a ta, args[i]? = some a → tys[i]? = some ta → Typed Φ (lookupG Gs Gg) a ta) →
       (∀ (i : Nat) ta, tys[i]? = some ta → sig.paramAt i ta = true) → STyped Φ Gg ρ Gs (.callS (.call name args)) Gs
+  /-- `test`: any number of arguments, each converted to any -/
+  | callTest (Gs : List SEnv) (args : List (Expr F)) : (∀ a ∈ args, Typed Φ (lookupG Gs Gg) a .any) →
+      STyped Φ Gg ρ Gs (.callS (.call (lit "test") args)) Gs
   /-- a call of a user-defined function as a statement (a result is dropped) -/
   | callFn (Gs : List SEnv) (name : Str) (args : List (Expr F)) (sig : FSig) : Φ name = some sig →
       args.length = sig.params.length →
